@@ -172,6 +172,13 @@ func main() {
 		writeSites(mr, os.Getenv("VERIF_SNAPSHOT_MAPRANGES"), "Carapace.Props.C10", "expectedMapRanges",
 			"/- The inventory of `for ... range <map>` statements of the library that the review in DESIGN.md 13.5 was made for (each entry:\n   file, function, ranged expression; digest of the whole loop).  Snapshot written by `VERIF_SNAPSHOT_MAPRANGES=<this file> extract`;\n   compared with the inventory regenerated from /repo on every run by `C10_map_ranges_covered`. -/\n")
 	}
+	// ---- C09 / C19: inventory of goroutine launches, channels and selects
+	gs := extractGoStmts(repo)
+	writeSites(gs, filepath.Join(out, "GoStmts.lean"), "Carapace.Gen", "goStmts", "-- GENERATED by /verif/extract from /repo on every run; do not edit.\n")
+	if os.Getenv("VERIF_SNAPSHOT_GOSTMTS") != "" {
+		writeSites(gs, os.Getenv("VERIF_SNAPSHOT_GOSTMTS"), "Carapace.Props.C09", "expectedGoStmts",
+			"/- The functions of the library that start goroutines, create channels or select (file, function, what they contain; digest of\n   the function body) that the review in DESIGN.md 13.5 was made for.  Snapshot written by `VERIF_SNAPSHOT_GOSTMTS=<this file> extract`;\n   compared with the inventory regenerated from /repo on every run by `C09_goroutines_covered`. -/\n")
+	}
 	js, _ := json.MarshalIndent(fc, "", " ")
 	os.MkdirAll("/verif/gen", 0o755)
 	genDir := filepath.Join(filepath.Dir(filepath.Dir(filepath.Dir(out))), "gen")
